@@ -82,12 +82,16 @@ func strDump(L *LState) int {
 func strFind(L *LState) int {
 	str := L.CheckString(1)
 	pattern := L.CheckString(2)
+	init := luaIndex2StringIndex(str, L.OptInt(3, 1), true)
+	if init > len(str) {
+		// as in lstrlib.c, a start position beyond the end of the string is the end
+		init = len(str)
+	}
 	if len(pattern) == 0 {
-		L.Push(LNumber(1))
-		L.Push(LNumber(0))
+		L.Push(LNumber(init + 1))
+		L.Push(LNumber(init))
 		return 2
 	}
-	init := luaIndex2StringIndex(str, L.OptInt(3, 1), true)
 	plain := false
 	if L.GetTop() == 4 {
 		plain = LVAsBool(L.Get(4))
